@@ -6,6 +6,10 @@ import os
 VERIF = os.path.dirname(os.path.dirname(os.path.abspath(__file__)))
 
 CLAIMED = {
+    "C18": dict(level="exploration", design="3/C18",
+                technique="deterministic simulation: seeded core-property assignment histories under a simulated clock (forward/backward jumps) with checkpoint/restart, stored-state generator of W3CDTF forms; value model + independent W3CDTF reader + OPC core-properties XSD",
+                text="Seeded search over assignment histories on the 15 core properties (boundary strings, datetimes across years 1..9999, revision values, wrong types) on decks with and without a core-properties part, the default part's timestamp being checked against the simulated clock under jumps, with saves and restarts; a reader arm feeds stored core.xml with every W3CDTF granularity and offsets in -14:00..+14:00; values are compared with a model, the part is validated against the OPC schema.",
+                note="trusted: stub Dublin Core schemas (schemas/dc), the independent W3CDTF arithmetic in sim/props/c18.py; naive datetimes only"),
     "C15": dict(level="exploration", design="3/C15",
                 technique="deterministic simulation: seeded picture-addition histories from path/stream sources (seeded stream position, misleading names) across slides, placeholders, poster frames and OLE icons with checkpoint/restart and injected source read faults; SHA1-keyed media-part multiset model + byte/type/size models",
                 text="Seeded search over picture-addition histories (same and different bytes interleaved, path and stream sources, pictures / placeholder fills / movie posters / OLE icons) with saves, restarts and injected read faults; after every step the live package and every saved zip are compared with a SHA1-keyed multiset model (one part per distinct byte string, distinct names), stored bytes with the input, extension/content type with the actual format, and sizes with a DPI model.",
